@@ -116,18 +116,29 @@ def key32(rng):
     return rng.choice(SPECIAL32) if rng.chance(1, 6) else rng.next() & 0xffffffff
 
 
+def keyed_ops(rng, n):
+    return ["crc %x" % key32(rng),
+            "crcinc %d %x" % (rng.below(n + 1), 0 if rng.chance(1, 2) else key32(rng)),
+            "sip %x %x" % (key64(rng), key64(rng)),
+            "spooky %x %x" % (key64(rng), key64(rng)),
+            "xxh %x" % key32(rng),
+            "mem %x" % key32(rng),
+            "mem32 %x" % key32(rng)]
+
+
 def gen_case(rng, n, kind, nkeys):
-    """one buffer + nkeys keyed evaluations of every function"""
+    """one buffer + nkeys keyed evaluations of every function.  The first key set is measured,
+    then `touch` makes the harness call all other entry points of the library (memhash,
+    memhash_string, siphash24_secure, every hash with other arguments), then the same key set is
+    measured again and the remaining key sets follow: purity includes independence of what
+    was called before."""
     data = content(rng, kind, n)
-    ops = ["data " + vf.hexs(data), "l3"]
-    for _ in range(nkeys):
-        ops.append("crc %x" % key32(rng))
-        ops.append("crcinc %d %x" % (rng.below(n + 1), 0 if rng.chance(1, 2) else key32(rng)))
-        ops.append("sip %x %x" % (key64(rng), key64(rng)))
-        ops.append("spooky %x %x" % (key64(rng), key64(rng)))
-        ops.append("xxh %x" % key32(rng))
-        ops.append("mem %x" % key32(rng))
-        ops.append("mem32 %x" % key32(rng))
+    first = keyed_ops(rng, n)
+    ops = ["data " + vf.hexs(data), "l3"] + first + ["touch", "l3"] + first
+    for _ in range(nkeys - 1):
+        ops += keyed_ops(rng, n)
+        if rng.chance(1, 4):
+            ops.append("touch")
     return ops
 
 
@@ -212,10 +223,16 @@ def par_compare(ck, hcmd, dcmd, cases, label, chunk=24, workers=None):
                     ck.cov["protocol_robustness_lines"] = ck.cov.get("protocol_robustness_lines", 0) + len(c)
                     continue
                 dkey = hashlib.blake2b(c[0].encode(), digest_size=12).hexdigest()
+                touched = 0
                 for op in c[1:]:
-                    ck.count(1)
-                    ck.distinct((dkey, op))
                     k = op.split(" ")[0]
+                    if k == "touch":
+                        ck.cov["touch_ops"] = ck.cov.get("touch_ops", 0) + 1
+                        touched = 1
+                        continue
+                    ck.count(1)
+                    ck.distinct((dkey, op, touched))
+                    ck.cov["after_touch"] = ck.cov.get("after_touch", 0) + touched
                     ck.cov["by_function"][k] = ck.cov["by_function"].get(k, 0) + 1
             continue
         if nfail >= 2:
@@ -224,10 +241,15 @@ def par_compare(ck, hcmd, dcmd, cases, label, chunk=24, workers=None):
         ci, opline = where
         case = ch[ci]
         # ops are independent given the buffer: the minimal case is [data, failing op]
-        cand = [case[0], opline] if opline and opline != case[0] else list(case)
-        k = ck.fails(hcmd, dcmd, cand)
+        k = None
+        cands = [[case[0], opline], [case[0], "touch", opline]] if opline and opline != case[0] else []
+        for cand in cands + [list(case)]:
+            k = ck.fails(hcmd, dcmd, cand)
+            if k is not None:
+                break
         if k is None:
-            ck.compare_cases(hcmd, dcmd, [case], label=label, max_failures=1)
+            # depends on what earlier cases of the chunk did in the same process
+            ck.compare_cases(hcmd, dcmd, ch[:ci + 1], label=label, max_failures=1)
             continue
         ck.count(1)
         cl, ml, err = ck.both(hcmd, dcmd, "#case\n" + "\n".join(cand) + "\n", 300)
@@ -256,7 +278,10 @@ def run(ck):
         "evaluations = hash op lines compared (model vs implementation); each is executed by the harness at "
         "32 placements (start offsets 0..15 from a left PROT_NONE page, end offsets 0..15 from a right one, "
         "slack poisoned + refilled with garbage) and compared with an independent reference. "
-        "distinct_nontrivial = distinct (buffer, op line) pairs; all are non-trivial (each reaches a hash "
+        "In every case the first key set is measured, then a `touch` op makes the harness call memhash, "
+        "memhash_string, siphash24_secure and every hash with other arguments, then the same ops are measured "
+        "again (more touches are interleaved at random): values must not depend on the call history. "
+        "distinct_nontrivial = distinct (buffer, op line, before/after first touch) triples; all are non-trivial (each reaches a hash "
         "evaluation; bad-op lines are not generated); length 0 is kept as a boundary class")
     ck.assumptions += [
         "little-endian 64-bit host: the byte order clauses (lookup3/xxhash/spooky read host-endian words) and "
